@@ -136,6 +136,14 @@ CHECKS = {
          "validated by TLC against the model (Trace_DataImpl), internal disagreement being MODEL-DRIFT only.",
     technique="TLA+ refinement DataImpl => Dataset checked by TLC over all request histories; behaviours replayed into verif.data.Data; hook traces validated by TLC",
     ref="6/C18"),
+ "C19": dict(
+    text="Combos.tla lists the documented names (70 metrics, 28 diagrams, 19 -x dimensions + default, 8 output types), the option variants "
+         "(-agg, -b, -r, -q, -acc, -hist, -sort, -T) and the driver's gate model as a prediction; TLC enumerates the full cross product "
+         "(15 680 combinations) and 3 480 variants; each is run through verif.driver.run with a real savefig under a time limit on "
+         "generated datasets (all column kinds; single time; single location; an all-missing slice): outcome must be an output or an "
+         "error exit with a message. Quick: a 3 000-run sample on two datasets; thorough: everything on four datasets.",
+    technique="TLA+ spec (Combos.tla) enumerated exhaustively by TLC; every enumerated command line run through verif.driver.run and classified",
+    ref="6/C19"),
  "C20": dict(
     text="Scripts.tla specifies accumulate (trailing sums by steps, incomplete windows missing, -i, cumulative without -w; lemma "
          "Accumulate = PreAgg(sum) on unit grids, tying it to C15), ens2prob (cdf between the strict and non-strict member fractions, "
